@@ -1,4 +1,5 @@
 import AthlibVerif.Model.HJ
+import AthlibVerif.Lemmas.Import
 /-! driver commands for the high-jump state machine (stateful: one competition at a time) -/
 namespace AthlibVerif.Drv
 open AthlibVerif.HJ
@@ -55,5 +56,12 @@ def handleHJ (st : HJState) (args : List String) : HJState × String :=
     | c :: rest => ({ cur := c, stack := rest }, "popped")
     | [] => (st, "bad-op")
   | ["new"] => ({ cur := {}, stack := [] }, "new")
+  | ["import", order] =>
+    -- the calls `from_matrix` makes for the current competition's log (`imported`), cards listed in the order given
+    match (order.splitOn ",").mapM (·.toNat?) with
+    | some ord =>
+      let (adds, bs) := blocksOf st.cur.log
+      (st, " ".intercalate ((adds ++ imported ord bs).map hjShowOp))
+    | none => (st, "bad-op")
   | _ => let (c, out) := handleHJ1 st.cur args; ({ st with cur := c }, out)
 end AthlibVerif.Drv
